@@ -38,7 +38,8 @@ RULE = ("Scenarios = (algorithm/nonce length, client and server sender-ID length
         "changes. Boundary table enumerated in full; random part from env.rng. A case is "
         "non-trivial when the message has inner options or payload and the step's outcome is "
         "determined by the property (accepted round trip / rejected manipulation).")
-TRUSTED = ["harness shims for cbor2/cryptography(HKDF)/filelock and the transparent AEAD "
+TRUSTED = ["system libcrypto (AES-CCM through ctypes) for the RFC 8613 appendix C replay only",
+           "harness shims for cbor2/cryptography(HKDF)/filelock and the transparent AEAD "
            "(harness/c11_util.py), which stands in for the assumed AEAD laws"]
 ASSUMPTIONS = ["AEAD: decryption inverts encryption; what decrypts under (key, nonce, aad) is the "
                "encryption of the returned plaintext under exactly (key, nonce, aad) (ideal "
@@ -890,6 +891,144 @@ def helper_lines(k, env, rep):
     compare(env, rep, cases, lines, impl, what="helpers")
 
 
+# --------------------------------------------------------------------------- RFC 8613 vectors
+
+RFC_SECRET = "0102030405060708090a0b0c0d0e0f10"
+RFC_SALT = "9e7ca92223786340"
+RFC_VECTORS = {
+    # appendix C.4: request, client with empty sender id, sequence number 20
+    "C.4": ("44015d1f00003974396c6f63616c686f737483747631",
+            "44025d1f00003974396c6f63616c686f7374620914ff612f1092f1776f1c1668b3825e"),
+    # appendix C.7: response reusing the request nonce
+    "C.7": ("64455d1f00003974ff48656c6c6f20576f726c6421",
+            "64445d1f0000397490ffdbaad1e9a7e7b2a813d3c31524378303cdafae119106"),
+    # appendix C.8: response with its own Partial IV (server sequence number 0)
+    "C.8": ("64455d1f00003974ff48656c6c6f20576f726c6421",
+            "64445d1f00003974920100ff4d4c13669384b67354b2b6175ff4b8658c666a6cf88e"),
+}
+
+
+def rfc_vectors(k, env, rep):
+    """Replay RFC 8613 appendix C.4/C.7/C.8 through the real protect()/unprotect() with real
+    AES-CCM-16-64-128 (ctypes on libcrypto), compare the AAD / nonce the implementation handed
+    to the algorithm with the model's, and flip every bit of the three protected messages."""
+    import c11_aesccm
+    if not c11_aesccm.available():
+        rep.notes.append("libcrypto EVP interface not usable: RFC 8613 appendix C replay with real "
+                         "AES-CCM skipped")
+        return
+    oscore, aiocoap = k.oscore, k.aiocoap
+    log = []
+
+    class RealCcm(oscore.AeadAlgorithm):
+        value, key_bytes, tag_bytes, iv_bytes = 10, 16, 8, 13
+
+        def encrypt(self, plaintext, aad, key, iv):
+            log.append((bytes(aad), bytes(iv)))
+            return c11_aesccm.encrypt(key, iv, aad, plaintext)
+
+        def decrypt(self, ct, aad, key, iv):
+            p = c11_aesccm.decrypt(key, iv, aad, ct)
+            if p is None:
+                raise oscore.ProtectionInvalid("Tag invalid")
+            return p
+
+    def ctx(role):
+        a = (b"", b"\x01") if role == "c" else (b"\x01", b"")
+        return k.Ctx(RealCcm(), a[0], a[1], None, bytes.fromhex(RFC_SECRET), bytes.fromhex(RFC_SALT))
+
+    def fail(name, verdict):
+        rep.oracle_fail({"rfc": name}, verdict, key="rfc8613:" + name)
+
+    def outgoing(hexwire):
+        m = aiocoap.Message.decode(bytes.fromhex(hexwire))
+        m.direction = aiocoap.message.Direction.OUTGOING
+        return m
+
+    def finish(outer, like):
+        outer.mid, outer.mtype, outer.token = like.mid, like.mtype, like.token
+        return outer.encode()
+
+    C, S = ctx("c"), ctx("s")
+    if (C.sender_key.hex(), C.recipient_key.hex(), C.common_iv.hex()) != (
+            "f0910ed7295e6ad4b54fc793154302ff", "ffb14e093c94c9cac9471648b4f98710",
+            "4622d4dd6d944168eefb54987c"):
+        fail("C.1.1", "derived keys / common IV differ from RFC 8613 C.1.1")
+    wires = {}
+    try:
+        req = outgoing(RFC_VECTORS["C.4"][0])
+        C.sender_sequence_number = 20
+        outer, rid_c = C.protect(req)
+        w4 = finish(outer, req)
+        wires["C.4"] = (w4, None)
+        msg, rid_s = S.unprotect(aiocoap.Message.decode(w4))
+        if opt_pairs(msg) != [(11, b"tv1")] or int(msg.code) != 1:
+            fail("C.4", "request vector does not unprotect to GET /tv1")
+        resp = outgoing(RFC_VECTORS["C.7"][0])
+        S.sender_sequence_number = 0
+        o7, _ = S.protect(resp, rid_s)
+        wires["C.7"] = (finish(o7, resp), rid_c)
+        o8, _ = S.protect(resp, rid_s)
+        wires["C.8"] = (finish(o8, resp), rid_c)
+    except Exception as e:
+        fail("exchange", f"RFC 8613 appendix C exchange raised {type(e).__name__}: {e}")
+    for name, (w, rid) in wires.items():
+        rep.case({"rfc": name}, nontrivial=True)
+        rep.count("rfc-vector")
+        if w.hex() != RFC_VECTORS[name][1]:
+            fail(name, f"protected message {w.hex()} differs from RFC 8613 {name} {RFC_VECTORS[name][1]}")
+        if rid is not None:
+            try:
+                m, _ = ctx("c").unprotect(aiocoap.Message.decode(w), copy_rid(k, rid))
+                if m.payload != b"Hello World!" or int(m.code) != 69:
+                    fail(name, "response vector does not unprotect to 2.05 Hello World!")
+            except Exception as e:
+                fail(name, f"response vector is not accepted: {type(e).__name__}")
+    if len(wires) < 3 or len(log) < 3 or rep.oracle_failures:
+        return
+    # what the implementation handed to AES-CCM, against the model
+    lines = ["C11 A 10 - 14", f"C11 N 13 {C.common_iv.hex()} 14 -", "C11 N 13 %s 00 01" % C.common_iv.hex()]
+    impl = [hx(log[0][0]), hx(log[0][1]), hx(log[2][1])]
+    compare(env, rep, [{"rfc": "aad"}, {"rfc": "nonce C.4"}, {"rfc": "nonce C.8"}], lines, impl,
+            what="RFC 8613 vectors")
+    # every single-bit flip of the three protected messages with the real algorithm
+    for name, (w, rid) in wires.items():
+        code, opts, payload, _ = rfc_parse_datagram(w)
+        opt_value = [v for n, v in opts if n == 9][0]
+        kind = "req" if rid is None else "resp"
+        base_ctx = ctx("s" if rid is None else "c")
+        base_out = do_unprotect(k, base_ctx, None if rid is None else copy_rid(k, rid), w)[0]
+        muts = [("optbit", i, rewire(k, w, oscore_value=flip(opt_value, i)),
+                 must_fail_option(kind, opt_value, flip(opt_value, i), b"" if rid is None else b"\x01",
+                                  None, None if rid is None else rid.kid,
+                                  None if rid is None else rid.partial_iv,
+                                  b"" if rid is None else b"\x01"))
+                for i in range(8 * len(opt_value))]
+        muts += [("paybit", i, rewire(k, w, payload=flip(payload, i)), "ciphertext bit flipped")
+                 for i in range(8 * len(payload))]
+        muts += [("paytrunc", n, rewire(k, w, payload=payload[:n]), "ciphertext truncated")
+                 for n in range(1, len(payload))]
+        for t, i, w2, must_fail in muts:
+            out = do_unprotect(k, ctx("s" if rid is None else "c"),
+                               None if rid is None else copy_rid(k, rid), w2)[0]
+            v = judge(out, must_fail, base_out, f"RFC {name} {t} {i} (real AES-CCM)")
+            case = {"rfc": name, "manip": [t, i]}
+            rep.case(case, nontrivial=True)
+            rep.count("rfc-aesccm:" + t + (":must-fail" if must_fail else ":representation"))
+            if v:
+                rep.oracle_fail(case, v, key=f"rfc8613:{name}:{t}")
+        if rid is not None:
+            for fk, fp in ((rid.kid, b"\x15"), (rid.kid, b"\x00\x14"), (b"\x02", rid.partial_iv)):
+                frid = oscore.RequestIdentifiers(fk, fp, None, aiocoap.POST)
+                out = do_unprotect(k, ctx("c"), frid, w)[0]
+                v = judge(out, "foreign request identifiers", base_out, f"RFC {name} foreign rid")
+                case = {"rfc": name, "manip": ["rid", hx(fk), hx(fp)]}
+                rep.case(case, nontrivial=True)
+                rep.count("rfc-aesccm:rid:must-fail")
+                if v:
+                    rep.oracle_fail(case, v, key=f"rfc8613:{name}:rid")
+
+
 # --------------------------------------------------------------------------- entry points
 
 def boundary_scenarios(gen, rng):
@@ -939,6 +1078,7 @@ def run(env, rep):
     gen = Gen(rng)
 
     helper_lines(k, env, rep)
+    rfc_vectors(k, env, rep)
 
     scns = []
     sink = Sink(rep)
@@ -956,7 +1096,7 @@ def run(env, rep):
             scns.append(c["scn"])
             rep.count("corpus")
     scns += boundary_scenarios(gen, rng)
-    for _ in range(env.scale(140, 2500)):
+    for _ in range(env.scale(140, 6000)):
         s = gen.scenario()
         if rng.random() < 0.6:
             s["twin"] = make_twin(gen, s)
@@ -1000,6 +1140,11 @@ def replay(env, case):
     import aiocoap.oscore as oscore
     k = K(aiocoap, oscore)
     import random
+    if "rfc" in case:
+        from common import Report
+        r = Report("C11")
+        rfc_vectors(k, env, r)
+        return r.oracle_failures[0]["verdict"] if r.oracle_failures else ""
     if "z" in case:
         v = unhx(case["z"])
         try:
